@@ -20,7 +20,9 @@ use crate::{
     protocol::QueryId,
     query::{
         CompletionHandle, ProtocolResult, executor,
-        state::{QueryState, QueryStatus, RemoveQuery, RunningQueries, StateError},
+        state::{
+            CompletionToken, QueryState, QueryStatus, RemoveQuery, RunningQueries, StateError,
+        },
     },
     sharding::ShardIndex,
     sync::Arc,
@@ -480,8 +482,15 @@ impl Processor {
             match queries.remove(&query_id) {
                 Some(QueryState::Completed(result)) => return result.map_err(Into::into),
                 Some(QueryState::Running(handle)) => {
-                    queries.insert(query_id, QueryState::AwaitingCompletion);
-                    CompletionHandle::new(RemoveQuery::new(query_id, &self.queries), handle)
+                    let token: CompletionToken = Arc::new(());
+                    queries.insert(
+                        query_id,
+                        QueryState::AwaitingCompletion(Arc::clone(&token)),
+                    );
+                    CompletionHandle::new(
+                        RemoveQuery::for_completion(query_id, &self.queries, token),
+                        handle,
+                    )
                 }
                 Some(state) => {
                     let state_error = StateError::InvalidState {
